@@ -51,6 +51,15 @@ def formulas(tier, rng):
         for p, q in ((A, B), (B, A)):
             out += [f"{p} {op} {q}" for op in OPS] + [f"({p} + {q})**2", f"({p}|g) + ({q}|g)", f"({p} + {q}|g)", f"(1|{p}) + (1|{q})",
                                                       f"a:{p} + a:{q}", f"{p} + a - {q}", f"({p} + a) * ({q} + b)"]
+    # differences and repeated groups of multi-term operands (three and more operators; the exhaustive part stops at two)
+    LEFTS = ["a + b", "a + b + c", "a*b", "a/b", "(a + b + c)**2", "a + f(x) + b", "a*b*c"]
+    RIGHTS = ["a + b", "a + a:b", "b + c", "a:b + a", "a + f(x)", "a:b + a:c", "b + a"]
+    for A in LEFTS:
+        for B in RIGHTS:
+            out += [f"{A} - ({B})", f"y ~ {A} - ({B})", f"({A}) - ({B}) + c"]
+    for G in ("(a + b)", "(a + f(x))", "(a + b + c)"):
+        out += [f"{G}**2 + {G}:c", f"{G}**2 - {G}", f"{G}/c + {G}:d", f"{G}/c - {G}", f"y ~ {G}**2 + {G}:c", f"{G}:c + {G}:d", f"{G}*c + {G}:d",
+                f"{G} - a + {G}"]
     pick = base if tier == "thorough" else rng.sample(base, min(len(base), 1500))
     for f in pick:
         out += [f"y ~ {f}", f"y ~ 0 + {f}", f"{f} - 1", f"y ~ {f} + 1", f"f(y) ~ 1 + {f}", f"y ~ {f} + 0"]
